@@ -95,6 +95,11 @@ def from_ast(n):
     if isinstance(n, ast.Constant) and isinstance(n.value, int) and not isinstance(n.value, bool):
         return ["lit", n.value]
     if isinstance(n, ast.Name):
+        if n.id == "__TYPE":
+            # the rewritten call sites reach the built-in `type` through an injected global of that name (since the
+            # `fix:` for finding D45: the bare name may be shadowed by a parameter of the user's function); the model's
+            # global `type` stands for that function
+            return ["glob", "type"]
         if n.id in ("g0", "g1", "recurse", "call_next", "type", "MAP", "CODE", "OVLD"):
             return ["glob", n.id]
         return ["var", name_of(n.id)]
